@@ -16,7 +16,8 @@ RULE = {"C16": "threaded workload: a worker thread runs `with NotifierDelay(P) a
                "(first programmed alarm == t0 + n).  Non-trivial = run with >=1 overrun and >=1 on-time wait; distinct = hash of "
                "(P, bodies)."}
 REQUIRED = {"C16": {"wait-on-time": 500, "wait-after-overrun": 100, "catch-up-wait": 50, "alarm-on-grid": 1000, "freed-wait-immediate": 50,
-                    "release-observed": 50, "conversion-period-checked": 5000}}
+                    "release-observed": 50, "release-on-exception-exit": 10,
+                    "conversion-period-checked": 5000}}
 ASSUMPTIONS = {"C16": ["the HAL simulator's waitForNotifierAlarm returns when the simulated clock reaches the programmed alarm (level-triggered)",
                        "sub-microsecond periods are not generated (the clock cannot represent the grid)"]}
 
@@ -52,7 +53,7 @@ def gen_case(rng):
         else:
             b = P * rng.randrange(2, 6) + rng.choice([0, 1, -1])
         bodies.append(b)
-    return {"mode": "threaded", "P": P, "bodies": bodies, "after_free": rng.choice([1, 2]), "use_with": rng.random() < 0.6,
+    return {"mode": "threaded", "P": P, "bodies": bodies, "after_free": rng.choice([1, 2]), "use_with": rng.random() < 0.6, "exit_exc": rng.random() < 0.4,
             "start_offset": rng.randrange(0, 5000)}
 
 
@@ -72,26 +73,39 @@ def run_threaded(acc, case):
     box = {}
     stage = {"k": -1}
 
+    class Boom(Exception):
+        pass
+
+    def loop(d):
+        box["created"] = e.now()
+        done.release()
+        for k in range(len(bodies)):
+            go.acquire()
+            stage["k"] = k
+            d.wait()
+            rets.append(e.now())
+            done.release()
+        go.acquire()           # the harness now watches the release
+
     def worker():
         try:
             go.acquire()
-            d = pd.NotifierDelay(P / 1e6)
-            box["created"] = e.now()
+            if case["use_with"]:
+                try:
+                    with pd.NotifierDelay(P / 1e6) as d:
+                        box["d"] = d
+                        loop(d)
+                        if case.get("exit_exc"):
+                            raise Boom()       # the with-block is left through an exception
+                except Boom:
+                    pass
+            else:
+                d = pd.NotifierDelay(P / 1e6)
+                box["d"] = d
+                loop(d)
+                d.free()
             done.release()
-            try:
-                for k in range(len(bodies)):
-                    go.acquire()
-                    stage["k"] = k
-                    d.wait()
-                    rets.append(e.now())
-                    done.release()
-            finally:
-                go.acquire()
-                if case["use_with"]:
-                    d.__exit__(None, None, None)
-                else:
-                    d.free()
-                done.release()
+            d = box["d"]
             for j in range(case["after_free"]):
                 go.acquire()
                 t = e.now()
@@ -198,6 +212,8 @@ def run_threaded(acc, case):
         acc.violation("C16/not-released", f"after free()/with-exit the notifier calls were {rel}, expected one stop then one clean", case, {})
         return None
     acc.ev("release-observed")
+    if case["use_with"] and case.get("exit_exc"):
+        acc.ev("release-on-exception-exit")
     for j in range(case["after_free"]):
         n_calls = len(proxy.calls)
         go.release()
